@@ -1,6 +1,105 @@
-(* C02 — placeholder while the proofs are being written *)
-From Coq Require Import List ZArith.
-From Verif Require Import c02.Path c02.HeapPath.
-Theorem C02_placeholder : True.
-Proof. exact I. Qed.
-Print Assumptions C02_placeholder.
+(* C02 — Paths and update operators equal their defining reductions.
+   Statements only; every theorem is closed by [exact] of a lemma proved in coq/c02.
+
+   What is proved here is the NATIVE layer of the property: the update natives of func.go, modelled at
+   heap level (coq/c02/HeapPath.v: slice headers, pointer-keyed allocator, in-place writes, in-place growth),
+   against the value-level functions of coq/c02/Path.v, and laws of those functions.  The jq-level part
+   ("p |= f equals its defining reduction") is checked by the implementation-only oracles of
+   harness/c02 (no model needed) and needs the language semantics of another slice to be stated in Coq.
+
+   The full-strength refinement statement is FALSE for the code as it is (findings D4, D5, D9 in
+   docs/C02.md).  It is kept visible as [C02_heap_full]; its three weakenings-of-hypotheses are refuted by
+   witnesses computed with the model, and the positive theorem is proved under the explicit, satisfiable
+   side conditions  no_slice p  /  the new value is frozen  /  the ownership invariant [orep]. *)
+From Coq Require Import List ZArith NArith.
+From Verif Require Import c02.Path c02.PathProofs c02.HeapPath c02.HeapInv c02.HeapProofs c02.HeapAbs c02.HeapWitness.
+Import ListNotations.
+
+(* The statement one would like (DESIGN section 5, C02 T.1): on ANY acyclic heap, for ANY path and ANY
+   acyclic new value, update returns a value that denotes Path.setpath of the denoted input. *)
+Definition C02_heap_full : Prop := forall p h ps v j n jn,
+  alloc_wf ps -> (exists fuel, abs fuel h v = Some j) -> (exists fuel, abs fuel h n = Some jn) ->
+  refines as_is h ps v p n j jn.
+
+(* ---- positive theorem ---- *)
+(* On a heap satisfying the ownership invariant (allocated containers form a tree below the state, each
+   with one owner, seen through full slice headers; everything else is never written), for a path of keys
+   and indices and a new value that contains no allocated container:
+   update fails exactly when Path.setpath fails; otherwise it returns (h',u) such that
+   - abs h' u = setpath (abs h v) path n for every sufficient fuel (so u is ACYCLIC),
+   - FRAME: every value x that does not reach an allocated container denotes the same value in h',
+   - the invariant holds again for u (so the next step of the reduction may rely on it). *)
+Theorem C02_abs_update : forall p h ps v j fp n jn,
+  alloc_wf ps -> orep h ps j v fp -> NoDup fp -> frep h ps jn n -> no_slice p ->
+  match setpath j p jn with
+  | None => update as_is h (Some ps) v p n = None
+  | Some j' =>
+      exists h' ps' u fp',
+        update as_is h (Some ps) v p n = Some (h', Some ps', u) /\
+        (forall fuel, depth j' < fuel -> abs fuel h' u = Some j') /\
+        (forall jx x, frep h ps jx x -> frep h' ps' jx x /\ forall fuel, depth jx < fuel -> abs fuel h' x = Some jx) /\
+        orep h' ps' j' u fp' /\ NoDup fp' /\ alloc_wf ps'
+  end.
+Proof. exact abs_update. Qed.
+Print Assumptions C02_abs_update.
+
+(* the invariant implies that the executable abstraction reads the denoted value: no cycle *)
+Theorem C02_invariant_acyclic : forall j h ps v fp, orep h ps j v fp -> forall fuel, depth j < fuel -> abs fuel h v = Some j.
+Proof. exact orep_abs. Qed.
+Print Assumptions C02_invariant_acyclic.
+
+(* ---- the full statement is false; each of the three hypotheses is necessary (expected on the current tree) ---- *)
+Theorem C02_heap_full_refuted : ~ C02_heap_full.
+Proof. exact heap_full_refuted. Qed.
+Print Assumptions C02_heap_full_refuted.
+
+(* D4: with a slice component (all other hypotheses kept) the result is not setpath's *)
+Theorem C02_abs_update_refuted_slice : ~ full_any_path as_is.
+Proof. exact abs_update_refuted_slice. Qed.
+Print Assumptions C02_abs_update_refuted_slice.
+
+(* D5: when the new value contains an allocated container of the state, update builds a CYCLIC value *)
+Theorem C02_abs_update_refuted_alias : ~ full_any_value as_is.
+Proof. exact abs_update_refuted_alias. Qed.
+Print Assumptions C02_abs_update_refuted_alias.
+
+(* D9: on an acyclic state in which an allocated container has two owners a write through one path
+   changes what is stored under another *)
+Theorem C02_abs_update_refuted_shared : ~ full_any_state as_is.
+Proof. exact abs_update_refuted_shared. Qed.
+Print Assumptions C02_abs_update_refuted_shared.
+
+(* ---- value-level laws (Path.v) ---- *)
+(* getpath q (setpath q x v) = x whenever the write is defined (paths of keys and indices) *)
+Theorem C02_get_set : forall p v n u,
+  no_slice p -> clean v -> n <> JEmpty -> setpath v p n = Some u -> getpath u p = Some n.
+Proof. exact get_set. Qed.
+Print Assumptions C02_get_set.
+
+(* writes through paths that diverge at a key or at a non-negative index commute, errors included
+   (bind = sequencing of two updates; either order fails iff the other does) *)
+Theorem C02_set_commute : forall p q v x y,
+  simple_path p -> simple_path q -> diverge p q -> x <> JEmpty -> y <> JEmpty -> clean v ->
+  bind (Path.update v p x) (fun v1 => Path.update v1 q y) = bind (Path.update v q y) (fun v2 => Path.update v2 p x).
+Proof. exact set_commute. Qed.
+Print Assumptions C02_set_commute.
+
+(* delpaths marks every path against the ORIGINAL indices and sweeps once: for the indices of one array
+   (the level at which positions shift) this equals deleting one by one in descending order *)
+Theorem C02_delpaths_descending : forall l is, Forall clean l -> descending is ->
+  Path.delpaths (JArr l) (map idx is) =
+  fold_left (fun acc i => bind acc (fun v => delpath v (idx i))) is (Some (JArr l)).
+Proof. exact delpaths_descending. Qed.
+Print Assumptions C02_delpaths_descending.
+
+(* non-vacuity: hypotheses of C02_abs_update hold on a concrete heap where the write happens IN PLACE in an
+   allocated array with spare capacity, beyond its length *)
+Example C02_nonvacuous :
+  let h := [OArr [HNum 1; HMap 1; HNull]; OMap [([97%N], HNum 2)]] in
+  let ps := [PArr 0 0] in
+  alloc_wf ps /\ orep h ps (JArr [JNum 1; JObj [([97%N], JNum 2)]]) (HArr 0 0 2 3) [0] /\ NoDup [0] /\
+  frep h ps (JNum 7) (HNum 7) /\ no_slice [PI 2%Z] /\
+  update as_is h (Some ps) (HArr 0 0 2 3) [PI 2%Z] (HNum 7) =
+    Some ([OArr [HNum 1; HMap 1; HNum 7]; OMap [([97%N], HNum 2)]], Some ps, HArr 0 0 3 3) /\
+  setpath (JArr [JNum 1; JObj [([97%N], JNum 2)]]) [PI 2%Z] (JNum 7) = Some (JArr [JNum 1; JObj [([97%N], JNum 2)]; JNum 7]).
+Proof. exact abs_update_nonvacuous. Qed.
